@@ -59,7 +59,23 @@ def gen_range(r, n):
     return one(), one()
 
 
-def gen_slice_items(r, info):
+def gen_slice_items(r, info, nslots=None):
+    items = _gen_slice_items(r, info)
+    arraylike = sum(1 for it in items if it["k"] in ("ints", "bools", "missing", "jagged"))
+    for it in items:
+        if it["k"] in ("ints", "bools", "missing", "jagged"):
+            # (only as the single array-like item: several index arrays in one slice must broadcast, the Python layer
+            # refuses anything else before the C++ slice is built)
+            if nslots and arraylike == 1 and r.random() < 0.15:
+                # the index array is another array of the pool (a root or an earlier result), as in a[b]
+                it.clear()
+                it.update({"k": "fromslot", "slot": r.randrange(nslots)})
+            # the caller lets go of the index array before the slice is applied: the slice item must own what it reads
+            it["drop"] = r.random() < 0.5
+    return items
+
+
+def _gen_slice_items(r, info):
     n, depth, keys = info["length"], info["depth"], info["keys"]
     items = []
     nitems = r.choice([1, 1, 1, 2, 2, 3])
@@ -131,7 +147,12 @@ def gen_op(r, info, nslots, enabled=None):
             return {"op": "fields", "keys": r.sample(keys, r.randint(0, len(keys)))}
         return {"op": "field", "key": "nosuch"}
     if k == "slice":
-        return {"op": "slice", "items": gen_slice_items(r, info)}
+        items = gen_slice_items(r, info, nslots)
+        op = {"op": "slice", "items": items}
+        more = [it["slot"] for it in items if it["k"] == "fromslot"]
+        if more:
+            op["more"] = more
+        return op
     if k == "carry":
         cnt = r.choice([0, 1, 2, 3, 6])
         idx = [r.randrange(n) for _ in range(cnt)] if n > 0 else []
@@ -209,6 +230,17 @@ def apply(node, op, a, slot_handle, tmp, before=None):
     if k == "slice":
         s = node.slice_new()
         tmp.append(s)
+
+        def add_array_item(s, h, it):
+            if it.get("drop"):
+                # a copy in library-owned buffers, released before the slice is used: only the slice item keeps it alive
+                h2 = node._node.op(19, h, iargs=[1, 1, 1])      # a helper, not the operation: no hook
+                try:
+                    node.slice_add(s, 4, arr=h2)
+                finally:
+                    node.drop(h2)
+            else:
+                node.slice_add(s, 4, arr=h)
         for it in op["items"]:
             ik = it["k"]
             if ik == "at":
@@ -224,11 +256,13 @@ def apply(node, op, a, slot_handle, tmp, before=None):
             elif ik == "ints":
                 h = lg.realize(node, int64_spec(it["v"]))
                 tmp.append(h)
-                node.slice_add(s, 4, arr=h)
+                add_array_item(s, h, it)
             elif ik == "bools":
                 h = lg.realize(node, bool_spec(it["v"]))
                 tmp.append(h)
-                node.slice_add(s, 4, arr=h)
+                add_array_item(s, h, it)
+            elif ik == "fromslot":
+                add_array_item(s, slot_handle(it["slot"]), it)
             elif ik == "field":
                 node.slice_add(s, 5, sarg=it["key"])
             elif ik == "fields":
@@ -247,7 +281,7 @@ def apply(node, op, a, slot_handle, tmp, before=None):
                         "content": int64_spec(vals)}
                 h = lg.realize(node, spec)
                 tmp.append(h)
-                node.slice_add(s, 4, arr=h)
+                add_array_item(s, h, it)
             elif ik == "jagged":
                 flat = [x for sub in it["v"] for x in sub]
                 offs = [0]
@@ -257,7 +291,7 @@ def apply(node, op, a, slot_handle, tmp, before=None):
                         "content": int64_spec(flat)}
                 h = lg.realize(node, spec)
                 tmp.append(h)
-                node.slice_add(s, 4, arr=h)
+                add_array_item(s, h, it)
         return node.getitem(a, s)
     if k == "carry":
         h = lg.realize(node, int64_spec(op["index"]))
